@@ -586,3 +586,20 @@ func prefixAll(p string, ss []string) []string {
 	}
 	return r
 }
+
+// RunScan prints the determinism scan of the given packages (repo-relative paths).
+func RunScan(o RunOpts, pkgs []string) int {
+	var patterns []string
+	for _, p := range pkgs {
+		patterns = append(patterns, "./"+p)
+	}
+	L, err := Load(o.RepoDir, filepath.Join(o.VerifDir, "harness"), patterns, "verif,symgo")
+	if err != nil {
+		fmt.Println("load failed:", err)
+		return 2
+	}
+	for _, s := range L.ScanDeterminism(pkgs) {
+		fmt.Printf("%s\t%s\t%s\t%s\n", s.Kind, s.Pos, s.What, s.Func)
+	}
+	return 0
+}
